@@ -19,7 +19,8 @@ type Head struct {
 }
 
 var (
-	headRegexp     = regexp.MustCompile("ref: refs/heads/.+")
+	headRegexp     = regexp.MustCompile("^ref: refs/heads/[^/]+$")
+	headPrefix     = "ref: refs/heads/"
 	ErrInvalidHead = errors.New("error: invalid HEAD format")
 	ErrIOHandling  = errors.New("IO handling error")
 )
@@ -60,9 +61,8 @@ func NewHead(rootGoitPath string) (*Head, error) {
 		if ok := headRegexp.MatchString(headString); !ok {
 			return nil, ErrInvalidHead
 		}
-		headSplit := strings.Split(headString, ": ")
-		slashSplit := strings.Split(headSplit[1], "/")
-		branch := slashSplit[len(slashSplit)-1]
+		// the branch name is everything after the prefix: it may itself contain ": "
+		branch := strings.TrimPrefix(headString, headPrefix)
 		head.Reference = branch
 
 		// get commit from branch
